@@ -12,7 +12,7 @@ COMMON_ASSUMPTIONS = [
 PROPS = {}
 
 PROPS['C20'] = {
-    'modules': ['c20', ('c10', ['R10.4']), ('siblings', ['SB2']), ('c08', ['X1', 'X7']), 'invariants'],
+    'modules': ['c20', ('c10', ['R10.4']), ('siblings', ['SB2']), ('c08', ['X1', 'X7']), 'invariants', ('c07', ['M2'])],
     'level': 'other',
     'quick_configs': ['default'],
     'thorough_configs': ['default', 'noalloc', 'nounicode', 'nostd'],
